@@ -6,6 +6,7 @@ CONSTANTS
   Sizes = {2, 3}
   KvPool <- KvPoolSmall
   TokPool <- TokPoolSmall
+  MixPool <- MixPoolSmall
   Extra <- NoExtra
   GFirst = TRUE
   SelDet = FALSE
